@@ -12,11 +12,12 @@
 (*   rt2      a bumped text is a legal current version           (C02)       *)
 (*   incr     old --flags,date--> out             (C05, C01, C14)          *)
 (*   gate     a run of test/update seen from outside (C01)                 *)
+(*   pep      text written for {pep440_version}   (C15)                    *)
 (*   calinfo  cal_info(day) = nine fields         (C14, C02)               *)
 (*   weekpat  is_valid_week_pattern(P)            (C14)                    *)
 (*   mono     renderings of two consecutive days  (C14)                    *)
 (***************************************************************************)
-EXTENDS TraceBase, BVResolve
+EXTENDS TraceBase, BVDerived
 
 VARIABLE l
 TraceInit == l = 1
@@ -98,6 +99,18 @@ GateVerdict(e) ==
   ELSE IF VerCmp(start, e.new) # -1 THEN <<"gate:announced-not-greater", <<start, VerCmp(start, e.new)>> >>
   ELSE Good
 
+\* what the code writes for {pep440_version} next to {version} (C15)
+\*  e.P : version pattern   e.DP : the code's derived pattern (as data)   e.v : the read-back state   e.t : version text
+\*  e.u : text written for {pep440_version}   e.printed : the PEP440 value printed by test/show   e.accD : the code's compiled DP accepts u in full
+PepVerdict(e) ==
+  LET c == C15Clause(e.v, e.P, e.DP, e.t, e.u, e.printed, e.accD)
+      ps == PartsIn(e.P)
+      gaps == [s10 |-> \E q \in 2..Len(ps) : ps[q] \in {"0Y", "0G"}, glued |-> GluedParts(e.P)] IN
+  IF c = "ok:version-not-pep440" THEN <<"skip:version-not-pep440", 0>>
+  ELSE IF c # OK THEN <<"pep:" \o c, gaps>>
+  ELSE IF Pep440Pattern(e.P) # e.DP THEN <<"pep:derivation-differs", Pep440Pattern(e.P)>>
+  ELSE Good
+
 CalVerdict(e) ==
   LET c == CalInfo(e.n) bad == {f \in CalFieldSet : c[f] # e.c[f]} IN
   IF bad = {} THEN Good ELSE <<"calinfo", [f \in bad |-> <<c[f], e.c[f]>>]>>
@@ -123,6 +136,7 @@ Verdict(e) ==
     [] e.ev = "rt2"     -> Rt2Verdict(e)
     [] e.ev = "incr"    -> IncrVerdict(e)
     [] e.ev = "gate"    -> GateVerdict(e)
+    [] e.ev = "pep"     -> PepVerdict(e)
     [] e.ev = "calinfo" -> CalVerdict(e)
     [] e.ev = "weekpat" -> WeekPatVerdict(e)
     [] e.ev = "mono"    -> MonoVerdict(e)
